@@ -68,6 +68,11 @@ func dockerStub(w http.ResponseWriter, r *http.Request) {
 	case "err500":
 		w.WriteHeader(500)
 		fmt.Fprint(w, `{"message":"injected daemon error"}`)
+	case "errmsg0", "errmsg1", "errmsg2", "errmsg3":
+		// runtime errors whose wording resembles a missing container; only the status code says "not found"
+		k := int(st[len(st)-1] - '0')
+		w.WriteHeader([]int{500, 503, 409, 400}[k])
+		fmt.Fprintf(w, `{"message":%q}`, dockerErrMsgs[k]+id)
 	case "reset":
 		if hj, ok := w.(http.Hijacker); ok {
 			if c, _, err := hj.Hijack(); err == nil {
@@ -93,6 +98,9 @@ func (*criStub) PodSandboxStatus(ctx context.Context, req *criapi.PodSandboxStat
 		return nil, status.Error(codes.NotFound, "sandbox not found")
 	case st == "err500" || st == "reset":
 		return nil, status.Error(codes.Unavailable, "injected runtime outage")
+	case strings.HasPrefix(st, "errmsg"):
+		k := int(st[len(st)-1] - '0')
+		return nil, status.Error([]codes.Code{codes.Unknown, codes.Internal, codes.DeadlineExceeded, codes.Unavailable}[k], criErrMsgs[k])
 	case strings.HasPrefix(st, "ready"):
 		return &criapi.PodSandboxStatusResponse{Status: &criapi.PodSandboxStatus{Id: id, State: criapi.PodSandboxState_SANDBOX_READY,
 			Annotations: map[string]string{gc.SandboxName: "pod-" + id, gc.SandboxNamespace: "ns1"}}}, nil
@@ -171,9 +179,15 @@ type c17Case struct {
 	MissingDir bool     `json:"missing_dir"`
 }
 
-var dockerStates = []string{"running", "running", "paused", "restarting", "created", "exited", "dead", "notfound", "err500", "reset"}
+var dockerStates = []string{"running", "running", "paused", "restarting", "created", "exited", "dead", "notfound", "err500", "reset",
+	"errmsg0", "errmsg1", "errmsg2", "errmsg3"}
 var criStates = []string{"ready", "ready", "notready-nopod", "notready-running", "notready-waiting", "notready-terminated", "notready-kubeerr",
-	"notfound", "err500"}
+	"notfound", "err500", "errmsg0", "errmsg1", "errmsg2", "errmsg3"}
+
+var dockerErrMsgs = []string{"No such container: ", "layer not found while inspecting ", "container is dead or marked for removal: ", "page not found: "}
+var criErrMsgs = []string{`failed to get verbose sandbox container info: runtime handler "runc" not found in runtime cache`,
+	"an error occurred when try to find sandbox: not found", "context deadline exceeded while waiting for sandbox status (NotFound?)",
+	"sandbox not found (transport is closing)"}
 
 func genC17() *rapid.Generator[c17Case] {
 	return rapid.Custom(func(t *rapid.T) c17Case {
@@ -211,7 +225,7 @@ func classOf(state string, containerd bool) string {
 		switch state {
 		case "exited", "dead", "notfound":
 			return "dead"
-		case "err500", "reset":
+		case "err500", "reset", "errmsg0", "errmsg1", "errmsg2", "errmsg3":
 			return "unknown"
 		}
 		return "alive"
@@ -219,7 +233,7 @@ func classOf(state string, containerd bool) string {
 	switch state {
 	case "notfound", "notready-nopod", "notready-terminated":
 		return "dead"
-	case "err500", "notready-kubeerr":
+	case "err500", "notready-kubeerr", "errmsg0", "errmsg1", "errmsg2", "errmsg3":
 		return "unknown"
 	case "ready":
 		return "alive"
